@@ -16,7 +16,7 @@ import (
 // With different numbers on the two ends the acceptor's Send blocks forever although the opener keeps consuming.
 
 func init() {
-	register(&Rule{ID: "R07.6", Props: []string{"C07"}, Floor: 2,
+	register(&Rule{ID: "R07.6", Props: []string{"C07", "C03"}, Floor: 2,
 		Doc: "one window on both ends: open frames advertise initWindow; initWindow and the initial send window are the same value; it originates from options.ChannelWindowSize or from the received open frame's Window()",
 		Run: runR07_6})
 }
